@@ -190,6 +190,62 @@ def kani_hoisted_ds():
     return rec
 
 
+def _impl_methods(code, pattern):
+    """names of the fns at depth 1 of every `impl LangInterpreter for <pattern>` block of (comment-free) source text"""
+    found = {}
+    for m in re.finditer(r"impl\s+LangInterpreter\s+for\s+(" + pattern + r")\s*\{", code):
+        depth, i, start = 1, m.end(), m.end()
+        names = []
+        while i < len(code) and depth > 0:
+            ch = code[i]
+            if ch == "{":
+                depth += 1
+            elif ch == "}":
+                depth -= 1
+            elif depth == 1 and code.startswith("fn ", i) and (i == 0 or not (code[i - 1].isalnum() or code[i - 1] == "_")):
+                mm = re.match(r"fn\s+([A-Za-z_0-9]+)", code[i:])
+                if mm:
+                    names.append(mm.group(1))
+            i += 1
+        found.setdefault(m.group(1), []).extend(names)
+        _ = start
+    return found
+
+
+def facade_covers_overrides():
+    """C13, structural: a trait method that a built-in interpreter implements itself but `impl LangInterpreter for Language` does not
+    define runs the trait's default body through the facade. Whether that default equals the interpreter's own version is not something
+    a contract in reach decides, so a gap makes the property UNDECIDED (the facade stand-in then compares both on the real crate)."""
+    o = {"id": "fac::Language::forwards-every-overridden-method", "fn": "impl LangInterpreter for Language", "kind": "frame", "props": ["C13"], "unit": "fac",
+         "src": "src/lang/mod.rs", "status": "discharged",
+         "text": "every LangInterpreter method that one of the seven interpreters implements itself is also defined by the facade (delegate! body, expanded) - none falls back to the trait default"}
+    try:
+        mod = strip_noncode(open(os.path.join(gen.REPO, "src/lang/mod.rs"), encoding="utf-8").read())
+        fac = set()
+        mm = re.search(r"macro_rules!\s*delegate\s*\{", mod)
+        if mm:
+            fac |= set(re.findall(r"\bfn\s+([A-Za-z_0-9]+)", mod[mm.end():]))
+        for names in _impl_methods(mod, "Language").values():
+            fac |= set(names)
+        gaps = []
+        for code in ["en", "fr", "es", "pt", "it", "de", "nl"]:
+            src = strip_noncode(open(os.path.join(gen.REPO, f"src/lang/{code}/mod.rs"), encoding="utf-8").read())
+            for ty, names in _impl_methods(src, r"[A-Z][A-Za-z0-9]*").items():
+                for n in names:
+                    if n not in fac:
+                        gaps.append({"msg": f"src/lang/{code}/mod.rs: `{ty}` implements `{n}` itself, `Language` does not forward it (the facade runs the trait default)"})
+        if not fac:
+            o["status"] = "undecided"
+            o["diag"] = [{"msg": "no method found in the facade impl (lost anchor)"}]
+        elif gaps:
+            o["status"] = "undecided"
+            o["diag"] = gaps
+    except Exception as e:  # noqa
+        o["status"] = "undecided"
+        o["diag"] = [{"msg": "scan failed: " + str(e)[:200]}]
+    return o
+
+
 def side_checks(pid, tier, seed):
     out = {"obligations": [], "cmd": "", "trusted": [], "engine": "", "bounded": []}
     if pid == "C12" and (tier == "thorough" or os.environ.get("VERIF_KANI_HOISTED") == "1"):
@@ -208,6 +264,9 @@ def side_checks(pid, tier, seed):
         out["cmd"] = cmd
         out["engine"] = "Kani 0.68 / CBMC 6.11 (loop-free harnesses over full-domain symbolic f64: complete float lemmas)"
         out["trusted"] = ["Kani/CBMC's IEEE-754 model of f64 comparison", "values of numerals are non-negative (the digit strings this crate parses carry no sign)"]
+        return out
+    if pid == "C13":
+        out["obligations"].append(facade_covers_overrides())
         return out
     if pid != "C14":
         return out
@@ -393,7 +452,7 @@ def find_witness(pid, obligation):
     return None
 
 
-STANDIN_MODES = {"C02": ["ident", "stream"], "C03": ["total"], "C05": ["dec"], "C06": ["wf"], "C07": ["consist"], "C09": ["thr"], "C11": ["ncase"], "C15": ["iter"], "C18": ["orule"]}
+STANDIN_MODES = {"C02": ["ident", "stream"], "C03": ["total"], "C13": ["facade"], "C05": ["dec"], "C06": ["wf"], "C07": ["consist"], "C09": ["thr"], "C11": ["ncase"], "C15": ["iter"], "C18": ["orule"]}
 STANDIN_BOUND = {
     "total": "about 70 texts (empty, whitespace-only, hyphen-only, combining characters, lone link / separator words, sequences of ordinals and cardinals with commas, repeated scale words, a 160-word number, the 29 stream phrases) x 7 languages x thresholds {0, 10, 100, +inf, -inf, NaN, -1} through text2digits, replace_numbers_in_text, find_numbers and find_numbers_iter: no panic, the lazy iterator ends",
     "ident": "22 texts without number words x 7 languages x thresholds {0,10} must come back identical; 7 number phrases x 6 punctuation frames",
@@ -405,6 +464,8 @@ STANDIN_BOUND = {
     "iter": "29 token streams x 3 thresholds: find_numbers_iter == find_numbers; hint-free streams also with tokens that keep the trait's default hint methods",
     "orule": "17 English sentences with 'o' next to words, punctuation and no-break spaces, and after a swallowed 'and' / 'point' while a number is pending; plus 270 systematic neighbourhoods: 10 left contexts x 9 right contexts (number word, ordinary word, comma, dash, other punctuation, text boundary) x 3 kinds of whitespace",
     "ncase": "11 words with non-ASCII letters, those letters capitalised",
+    "facade": "per language every word of its grammar table (plus articles, conjunction, separator word, an ordinary word, a comma) alone and every ordered pair of them (about 200 000 phrases), and the 29 stream phrases: "
+              "text2digits, replace_numbers_in_text (thresholds 0 and 10) and find_numbers (threshold 10) through the concrete interpreter type and through Language must agree",
     "phrases": "per language about 2 800 integers below 10^12 (all of 0..1200, 1900..2030, structured multiples of 10^3/10^6/10^9, 1 500 random "
                "ones from VERIF_SEED; pt below 10^6; de without the known 'eine' cases) spelled by tools/spell.py: text2digits == digits and the phrase "
                "inside a sentence is rewritten as one number; for C16 with one and two zero words in front",
